@@ -291,6 +291,33 @@ def write_replay(prop, rec):
     return os.path.relpath(p, VERIF)
 
 
+def regen_tables(prop, meta, exe, build, tier="quick", seed=1, info=None):
+    """run the harness with --tables and install the regenerated coq/gen files (T2/T3 translators)"""
+    out_broken = []
+    gdir = os.path.join(build, "gen")
+    shutil.rmtree(gdir, ignore_errors=True)
+    os.makedirs(gdir)
+    env = goenv()
+    env["VERIF_REPO_DIR"] = REPO
+    env["VERIF_DIR"] = VERIF
+    grc, gout, _ = sh([exe, "--tier", tier, "--seed", str(seed), "--out", gdir, "--tables"], cwd=HARNESS, env=env, timeout=600)
+    if grc != 0:
+        return [dict(kind="tables", what="table/site generator failed", log=gout[-3000:])]
+    with CoqLock():
+        os.makedirs(os.path.join(COQ, "gen"), exist_ok=True)
+        for g in meta["gen"]:
+            src, dst = os.path.join(gdir, g), os.path.join(COQ, "gen", g)
+            if not os.path.exists(src):
+                out_broken.append(dict(kind="tables", what="generator did not produce " + g))
+                continue
+            new = open(src).read()
+            if not os.path.exists(dst) or open(dst).read() != new:
+                open(dst, "w").write(new)
+                if info is not None:
+                    info.setdefault("gen_changed", []).append(g)
+    return out_broken
+
+
 # ---------------------------------------------------------------- main
 def run_harness(exe, tier, seed, rundir, extra, timeout, race=False):
     shutil.rmtree(rundir, ignore_errors=True)
@@ -352,25 +379,7 @@ def main(argv):
 
     # 2. regenerate gen/*.v from the built code, then make + props
     if rc == 0 and meta["gen"]:
-        gdir = os.path.join(build, "gen")
-        shutil.rmtree(gdir, ignore_errors=True)
-        os.makedirs(gdir)
-        env = goenv()
-        env["VERIF_REPO_DIR"] = REPO
-        grc, gout, _ = sh([exe, "--tier", tier, "--seed", str(seed), "--out", gdir, "--tables"], cwd=HARNESS, env=env, timeout=600)
-        if grc != 0:
-            broken.append(dict(kind="tables", what="table/site generator failed", log=gout[-3000:]))
-        else:
-            with CoqLock():
-                for g in meta["gen"]:
-                    src, dst = os.path.join(gdir, g), os.path.join(COQ, "gen", g)
-                    if not os.path.exists(src):
-                        broken.append(dict(kind="tables", what="generator did not produce " + g))
-                        continue
-                    new = open(src).read()
-                    if not os.path.exists(dst) or open(dst).read() != new:
-                        open(dst, "w").write(new)
-                        info.setdefault("gen_changed", []).append(g)
+        broken += regen_tables(prop, meta, exe, build, tier, seed, info)
     mrc, mout = coq_make(["props/%s.vo" % prop])
     if mrc != 0:
         broken.append(dict(kind="coq-make", what="the Coq development no longer builds (make)", log=mout[-3000:]))
